@@ -410,7 +410,7 @@ impl Exec {
         if !top_p.is_legal(mv) || depth >= 8 {
             return Ok(Flow::Go);
         }
-        let dirty_b = self.dirty_pool[(dirty as usize) % self.dirty_pool.len()];
+        let dirty_b = if self.dirty_pool.is_empty() { top_b } else { self.dirty_pool[(dirty as usize) % self.dirty_pool.len()] };
         let np = top_p.make(mv);
         let nb = if self.on(2) {
             let r = guard(|| c02_successor(&top_b, &top_p, mv, &dirty_b))
